@@ -78,3 +78,24 @@ Definition check_val_case (x : val_case) : bool :=
 (* cones only, without the frame conditions *)
 Definition check_val_case_cones (x : val_case) : bool :=
   let '(before, after, leaves, outs, care) := x in check_step before after leaves outs care.
+
+(* a recorded step of the all-outputs-trivial branch: output o merged into leaf l *)
+Definition merge_case : Type :=
+  (circuit * circuit * list label * label * label * option (list (list bool)))%type.
+Definition check_merge_case (x : merge_case) : bool :=
+  let '(before, after, leaves, o, l, care) := x in
+  check_merge before after leaves o l care
+  && match care with Some K => care_covers before leaves K | None => true end.
+
+(* diagnostics: the components of check_val_case, one at a time *)
+Definition val_frame_order (x : val_case) : bool :=
+  let '(before, after, leaves, outs, care) := x in frame_order after.
+Definition val_frame_leaves (x : val_case) : bool :=
+  let '(before, after, leaves, outs, care) := x in frame_leaves before after leaves outs.
+Definition val_frame_users (x : val_case) : bool :=
+  let '(before, after, leaves, outs, care) := x in frame_users before after outs.
+Definition val_frame_scope (x : val_case) : bool :=
+  let '(before, after, leaves, outs, care) := x in frame_scope before after leaves outs.
+Definition val_care_covers (x : val_case) : bool :=
+  let '(before, after, leaves, outs, care) := x in
+  match care with Some K => care_covers before leaves K | None => true end.
